@@ -41,6 +41,7 @@ func runC02(c *Ctx) {
 		if s.Type == "ColumnWriter" {
 			s.Reset = []string{"(*ColumnWriter).reset"}
 			s.Exempt["ColumnWriter.rowGroupOrdinal"] = "advanced by writeRowGroup itself, per row group"
+			s.Exempt["ColumnWriter.fileUnique"] = "per-file identifier of the encryption state: assigned by the writer's own reset for every column (C18.fileid), constant within a file"
 			runResetRule(c, "C02.reset", ci, s)
 		}
 	}
